@@ -26,7 +26,7 @@ NOT_DECIDED = ["behaviour at an actual crash point (process kill) - only the ord
                "that the back-end libraries (PyTables, netCDF4, xdrfile) persist data on flush/sync",
                "equality of file content between k calls and one call (run-time)"]
 ASSUMPTIONS = ["PyTables EArray.append and netCDF variable assignment validate the per-frame shape themselves (atom count) before storing"]
-FLOORS = {"C19-R1": 11, "C19-R2": 9, "C19-R3": 3, "C19-R4": 4, "C19-R5": 6, "C19-R6": 6, "C19-R7": 24, "C19-R8": 68}
+FLOORS = {"C19-R1": 11, "C19-R2": 9, "C19-R3": 3, "C19-R4": 4, "C19-R5": 6, "C19-R6": 6, "C19-R7": 24, "C19-R8": 78}
 
 WRITERS = ["h5", "nc", "xtc", "trr", "dcd", "dtr", "mdcrd", "xyz", "lammpstrj", "gro", "pdb", "lh5", "rst7", "ncrst"]
 IO_ERRORS = ("IOError", "OSError", "RuntimeError", "MemoryError", "NotImplementedError", "ImportError")
@@ -158,6 +158,7 @@ def check(ctx):
     _r7(ctx)
     _r8_array_stores(ctx)
     _r8_xdr(ctx)
+    _r8_dcd(ctx)
     ctx.rule("C19-R6", "HDF5.write passes flush() on every normal exit; flush() reaches the backend sync; the reporter flushes after write")
 
     for key in WRITERS:
@@ -906,3 +907,71 @@ def _r8_xdr(ctx):
                 ctx.decide(why is None, "C19-R8", fn, rel, q, desc, (e1 or "")[:40], "%s: the file becomes ragged" % why)
             except PUnsupported as e:
                 ctx.undecided("C19-R8", fn, rel, q, desc, "not evaluable: %s" % e)
+
+
+def _r8_dcd(ctx):
+    """DCDTrajectoryFile.write evaluated on a model DCD file (sa/dcdmodel.py): n frames in k calls leave the frame records of one call; a later write with
+    another atom count, or with the cell added / dropped, is refused and appends nothing."""
+    from .. import dcdmodel as D, writers as W
+    from ..tensym import TenSym, Ten, Raised
+    from ..pysym import Unsupported as PUnsupported
+    from .. import textio as T
+    NA = 3
+    ev = TenSym({})
+    rel, cls = F.rel_cls("dcd")
+    fn = F.method(ctx, "dcd", "write")
+    q = cls + ".write"
+
+    def cut(t, a, b):
+        if t is None:
+            return None
+        v = ev.getitem(t, (slice(a, b),))
+        return Ten(v.shape, list(v.data))
+
+    def write(df, me, **kw):
+        try:
+            D.call(ctx, df, me, "write", assume=W.assume, **{k_: v_ for k_, v_ in kw.items() if v_ is not None})
+            return None
+        except Raised as e:
+            return e.exc or str(e)
+    for has_cell in (True, False):
+        for n, part in ((2, [(0, 1), (1, 2)]), (3, [(0, 1), (1, 3)]), (3, [(0, 2), (2, 3)])):
+            desc = "%d frames in calls of %s (%s cell): the frame records of one call" % (n, [b_ - a_ for a_, b_ in part], "with" if has_cell else "without")
+            try:
+                data = dict(xyz=Ten.sym("x", (n, NA, 3)), cell_lengths=Ten.sym("L", (n, 3)) if has_cell else None, cell_angles=Ten.sym("A", (n, 3)) if has_cell else None)
+                d1, d2 = D.DcdFile(), D.DcdFile()
+                m1, m2 = D.file_object(ctx, d1, "w"), D.file_object(ctx, d2, "w")
+                e1 = write(d1, m1, **data)
+                es = [write(d2, m2, **{k_: cut(v_, a_, b_) for k_, v_ in data.items()}) for a_, b_ in part]
+                why = None
+                if e1 or any(es):
+                    why = "a write is refused: %s" % (e1 or next(e_ for e_ in es if e_))[:80]
+                elif len(d1.frames) != n or len(d2.frames) != n:
+                    why = "%d / %d frames on file for %d written" % (len(d1.frames), len(d2.frames), n)
+                else:
+                    for k_, (a_, b_) in enumerate(zip(d1.frames, d2.frames)):
+                        want_x = list(data["xyz"].data[k_ * NA * 3:(k_ + 1) * NA * 3])
+                        want_c = (tuple(data["cell_lengths"].data[k_ * 3:k_ * 3 + 3]) + tuple(data["cell_angles"].data[k_ * 3:k_ * 3 + 3])) if has_cell else None
+                        if not (T.same_value(a_["x"], b_["x"]) and T.same_value(a_["x"], want_x)):
+                            why = "frame %d on file is not the frame handed to write()" % k_
+                            break
+                        if has_cell and not (T.same_value(list(a_["cell"]), list(b_["cell"])) and T.same_value(list(a_["cell"]), list(want_c))):
+                            why = "the cell of frame %d on file is not the one handed to write()" % k_
+                            break
+                ctx.decide(why is None, "C19-R8", fn, rel, q, desc, "", "%s: incremental writing does not give the file of one-shot writing" % why)
+            except PUnsupported as e:
+                ctx.undecided("C19-R8", fn, rel, q, desc, "not evaluable: %s" % e)
+    base = dict(xyz=Ten.sym("x", (2, NA, 3)), cell_lengths=Ten.sym("L", (2, 3)), cell_angles=Ten.sym("A", (2, 3)))
+    nocell = {"xyz": base["xyz"]}
+    for what, first, second in (("another atom count", base, dict(base, xyz=Ten.sym("y", (2, NA + 1, 3)))), ("the cell left out", base, nocell), ("a cell added", nocell, base)):
+        desc = "a later write with %s is refused and appends nothing" % what
+        try:
+            df = D.DcdFile()
+            me = D.file_object(ctx, df, "w")
+            e0 = write(df, me, **first)
+            n0 = len(df.frames)
+            e1 = write(df, me, **second)
+            why = ("the first write is refused: %s" % e0[:60]) if e0 else ("it is accepted" if not e1 else ("it is refused after %d frames were appended" % (len(df.frames) - n0) if len(df.frames) != n0 else None))
+            ctx.decide(why is None, "C19-R8", fn, rel, q, desc, (e1 or "")[:40], "%s: the file becomes ragged" % why)
+        except PUnsupported as e:
+            ctx.undecided("C19-R8", fn, rel, q, desc, "not evaluable: %s" % e)
